@@ -106,6 +106,50 @@ theorem decExportSec_encExportSec (es : List Export) (hl : U32 es.length)
     simp [encExport, decExport, List.append_assoc, decName_encName' n (h _ hx).1, decU32_encU32' i (h _ hx).2]
   exact whole_of _ _ _ (decVec_encVec' encExport decExport es hl he [])
 
+/-! ## label resolution -/
+
+/-- a named branch target resolves to the NEAREST enclosing block carrying that label -/
+theorem label_resolve_nearest (stk : List (Option Bytes)) (l : Bytes) (i : Nat) (h : resolveLabel stk l = some i) :
+    stk[i]? = some (some l) ∧ ∀ j, j < i → stk[j]? ≠ some (some l) := by
+  induction stk generalizing i with
+  | nil => simp [resolveLabel] at h
+  | cons x r ih =>
+    simp only [resolveLabel] at h
+    split at h
+    · rename_i hx
+      cases h
+      exact ⟨by simp [hx], by intro j hj; omega⟩
+    · rename_i hx
+      cases hr : resolveLabel r l with
+      | none => simp [hr] at h
+      | some k =>
+        simp [hr] at h
+        subst h
+        obtain ⟨h1, h2⟩ := ih k hr
+        refine ⟨by simpa using h1, ?_⟩
+        intro j hj
+        cases j with
+        | zero => simpa using hx
+        | succ j' => simpa using h2 j' (by omega)
+
+/-- … and it resolves whenever some enclosing block carries the label -/
+theorem label_resolve_complete (stk : List (Option Bytes)) (l : Bytes) (h : some l ∈ stk) :
+    ∃ i, resolveLabel stk l = some i := by
+  induction stk with
+  | nil => simp at h
+  | cons x r ih =>
+    simp only [resolveLabel]
+    by_cases hx : x = some l
+    · exact ⟨0, by simp [hx]⟩
+    · have : some l ∈ r := by
+        rcases List.mem_cons.mp h with h | h
+        · exact absurd h.symm hx
+        · exact h
+      obtain ⟨k, hk⟩ := ih this
+      exact ⟨k + 1, by simp [hx, hk]⟩
+
+example : resolveLabel [none, some [97], some [98], some [97]] [97] = some 1 := by decide
+
 /-! ## the name section the text describes -/
 
 /-- Entries are in strictly increasing index order: function names, the per-function entries of the
